@@ -192,6 +192,8 @@ def add_late_settings(L):
     L['nd'] = True            # sequence-valued arguments (external temperatures, coefficients) as float ndarrays instead of lists
   if L.get('cbounds') and r2.random() < 0.2:
     L['recb'] = True          # built without (CDevice2: with the default) cumulative bounds, used once, then `cbounds` assigned
+  if L.get('post_set') and r2.random() < 0.5:
+    L['pwarm'] = True         # the device is used once (project/cost/deriv/constraints/hess) BEFORE the late parameters are assigned
 
 
 # ---- preference-function ASTs -----------------------------------------------------------------------
@@ -376,6 +378,8 @@ def build(L):
     L0['post_set'] = None
     L0['omit'] = post
     d = build(L0)
+    if L.get('pwarm'):
+      warm_up(d)
     for k in post:
       setattr(d, k, py_param(L[k]))
     return d
@@ -420,6 +424,8 @@ def build(L):
       kw['rate_clip'] = tuple(None if v is None else float(v) for v in rc)
     post = {k: kw.pop(k) for k in (L.get('post_set') or [])}
     d = call(dk.SDevice, i, n, bounds, cb, **kw)
+    if post and L.get('pwarm'):
+      warm_up(d)
     for k, v in post.items():
       setattr(d, k, v)
     return d
@@ -564,7 +570,7 @@ def leaf_from_json(J):
   if L.get('cbounds') is not None:
     L['cbounds'] = [(F(a), F(b), int(s), int(e)) for a, b, s, e in L['cbounds']]
   for k, v in list(L.items()):
-    if k in ('n', 'cls', 'id', 'cb_kind', 'bounds', 'cbounds', 'f', 'ucons', 'rate_clip', 'post_set', 'rebound', 'warm', 'omit', 'recb', 'twice', 'nd', 'intb'):
+    if k in ('n', 'cls', 'id', 'cb_kind', 'bounds', 'cbounds', 'f', 'ucons', 'rate_clip', 'post_set', 'rebound', 'warm', 'omit', 'recb', 'twice', 'nd', 'intb', 'pwarm'):
       continue
     if isinstance(v, int) and not isinstance(v, bool):
       L[k] = F(v)
